@@ -21,6 +21,14 @@ def mods():
     return [cc, ct, dev, program, tp]
 
 
+def _xmods():
+    import strawberryfields.compilers.xunitary as xu
+    import strawberryfields.compilers.gbs as gbs
+    import strawberryfields.ops as ops
+    import strawberryfields.program_utils as pu
+    return [xu, gbs, ops, pu]
+
+
 # ------------------------------------------------------------------------------------------ (a) ranges
 
 def _inside(v, lo, hi, atol):
@@ -261,7 +269,64 @@ def h_tdm_assert_modes(g, N, T):
         g.holds("CircuitError <=> shape outside the device's", bool(bad) == raised)
 
 
+# ------------------------------------------------------------------------------------------ (d) Xunitary: squeezer stage
+
+def h_xunitary_s2(g, pairs, zero):
+    """Xunitary on squeezer-only programs (4 modes, pairs (0,2) and (1,3)): repeated squeezers on a pair, zero squeezers
+    (literal 0 at the positions in `zero`, and symbolic amplitudes that may be 0), pairs left without a squeezer.  Either
+    CircuitError, or the returned gates (merged S2gates followed by the mesh of the identity interferometer) have exactly
+    the net symplectic action of the source sequence, and the layout S2 x2, (MZ, R, R) x2, MeasureFock"""
+    import strawberryfields as sf
+    from strawberryfields import ops
+    from strawberryfields.program_utils import CircuitError
+    from . import c11
+    n = 4
+    prog = sf.Program(n)
+    chain = []
+    vals = []
+    for k, pr in enumerate(pairs):
+        r = 0.0 if k in zero else g.real("r%d" % k)
+        ph = g.real("phi%d" % k)
+        vals.append((r, ph))
+    with prog.context as q:
+        for k, pr in enumerate(pairs):
+            r, ph = vals[k]
+            ops.S2gate(r, ph) | (q[pr], q[pr + 2])
+            chain.append(("S2gate", [r if k not in zero else (0 * ph), ph], [pr, pr + 2], False))
+        ops.MeasureFock() | q
+    try:
+        out = prog.compile(compiler="Xunitary")
+    except CircuitError:
+        g.fact("CircuitError is acceptable", True)
+        return
+    like_arr = fn.zeros((1,), sarray([0]) if g.sym else np.zeros(1))
+    Sref, dref = c11.net_map(chain, n, like_arr)
+    names = [type(c.op).__name__ for c in out.circuit]
+    g.fact("layout: S2 S2 | MZ R R | MZ R R | MeasureFock",
+           names == ["S2gate", "S2gate", "MZgate", "Rgate", "Rgate", "MZgate", "Rgate", "Rgate", "MeasureFock"], detail=repr(names))
+    g.fact("squeezers on the pairs (m, m+N)", sorted(tuple(r.ind for r in c.reg) for c in out.circuit[:2]) == [(0, 2), (1, 3)])
+    g.fact("all modes measured in order", [r.ind for r in out.circuit[-1].reg] == [0, 1, 2, 3])
+    ochain = []
+    for c in out.circuit[:-1]:
+        ochain.append((type(c.op).__name__, [p_ if not isinstance(p_, (float, np.floating)) else float(p_) for p_ in c.op.p],
+                       [r.ind for r in c.reg], bool(c.op.dagger)))
+    Sout, dout = c11.net_map(ochain, n, like_arr)
+    g.eq("net symplectic matrix", Sout, Sref)
+    g.eq("net displacement", dout, dref)
+
+
 def build(ctx):
+    fx = ["compilers.xunitary.Xunitary.compile (squeezer grouping and merging, identity interferometer)", "compilers.gbs.GBS.compile",
+          "program_utils.group_operations", "ops.Interferometer._decompose (numeric identity)"]
+    fam = [([0], []), ([0, 0], []), ([0, 1], []), ([0, 0], [0]), ([0, 0], [1]), ([1, 0, 1], []), ([0, 1, 0], [0])]
+    if ctx.thorough:
+        fam += [([0, 0, 0], []), ([0, 0, 0], [1]), ([1, 1, 0, 0], []), ([0, 0, 1], [2])]
+    for pairs, zero in fam:
+        ctx.add("xunitary.squeezers.%s.zero%s" % ("".join(map(str, pairs)), "".join(map(str, zero))), h_xunitary_s2,
+                {"pairs": pairs, "zero": zero}, modules=lambda: mods() + _xmods(), functions=fx,
+                bounds={"modes": 4, "squeezers on pairs": pairs, "literal zero amplitudes at": zero,
+                        "amplitudes and phases": "symbolic (may be zero / equal: those tests fork)", "interferometer": "identity"},
+                validate_points=1)
     ctx.outside += [
         "layout conformance of Xstrict / Xunitary / Xcov output (networkx VF2 isomorphism against the Blackbird layout, blackbird "
         "template matching: native library code that needs concrete parameters) and their preservation of photon statistics "
